@@ -66,6 +66,7 @@ type sworld struct {
 	lite      bool            // store dumps without snapshots and user documents (their timing is schedule-dependent)
 	bgHeld    []chan struct{} // post-push goroutines parked before their snapshot update (fault "holdbg"), oldest first
 	bgTimeout bool
+	spawn0    int64 // bgSpawned when this world was created (the broker stand-in was reset then)
 }
 
 var theKit *srvkit.Kit
@@ -132,7 +133,7 @@ func newSWorld() *sworld {
 	k.Mongo.ReleaseAll()
 	k.Mongo.Restore(k.DB, map[string][]bson.M{})
 	k.MQTT.Reset()
-	return &sworld{kit: k, held: map[int][]*model.PushPullPack{}, heldRep: map[int][]int{}}
+	return &sworld{kit: k, held: map[int][]*model.PushPullPack{}, heldRep: map[int][]int{}, spawn0: atomic.LoadInt64(&bgSpawned)}
 }
 
 func rpcCode(err error) int {
@@ -302,6 +303,20 @@ func canonS(v interface{}) string { b, _ := json.Marshal(v); return string(b) }
 // counters fed by the schedule points of verifhook; two consecutive readings must agree.  The deadline only
 // guards against a goroutine that never ends (reported in the observation of the step as `bgTimeout`).
 func (w *sworld) waitBackground() {
+	w.waitBackgroundGoroutines()
+	// every post-push goroutine that is finished, parked or blocked at the gate has sent its notification before
+	// (QoS 0: the broker stand-in may record it a little later than the client returns): wait for the record
+	want := int(atomic.LoadInt64(&bgSpawned) - w.spawn0)
+	dl := time.Now().Add(1500 * time.Millisecond)
+	for len(w.kit.MQTT.Publishes()) < want && time.Now().Before(dl) && w.bgRunning() <= 0 {
+		time.Sleep(200 * time.Microsecond)
+	}
+	if got := len(w.kit.MQTT.Publishes()); got < want && w.bgRunning() <= 0 {
+		w.spawn0 += int64(want - got) // a notification was not sent (fault, crash): do not wait for it again
+	}
+}
+
+func (w *sworld) waitBackgroundGoroutines() {
 	deadline := time.Now().Add(20 * time.Second)
 	ok := 0
 	lastLog, quietSince := -1, time.Now()
